@@ -11,6 +11,7 @@ import (
 	"fmt"
 	"os"
 	"sort"
+	"strings"
 	"sync"
 	"sync/atomic"
 	"time"
@@ -434,6 +435,48 @@ func runTTLChoice(key string, recreate bool, scratch string) (o out) {
 	return
 }
 
+// the ttl arguments of every batch operation of one Create / Update / Delete carrying a Lease
+func runTTLWrite(key string, op string, lease int64, scratch string) (o out) {
+	o.kind = "ttl-write/" + op
+	inner, closer, err := lib.NewEngine(lib.EngMem, scratch)
+	if err != nil {
+		o.fail = err.Error()
+		return
+	}
+	defer closer()
+	rec := &lib.CsTTLRec{KvStorage: inner}
+	be, err := lib.CsNewBackend(rec, prefix, nil, initRev)
+	if err != nil {
+		o.fail = err.Error()
+		return
+	}
+	defer be.Retire()
+	w := lib.CsWrite{Op: op, Key: []byte(key), Val: []byte("w"), Lease: lease}
+	if op != "create" {
+		_, hdr, _ := be.Do(lib.CsWrite{Op: "create", Key: []byte(key), Val: []byte("v")})
+		w.Rev = hdr
+	}
+	rec.Reset()
+	class, _, _ := be.Do(w)
+	if class != "ok" {
+		o.fail = fmt.Sprintf("%s of %s did not succeed (%s)", op, key, class)
+		return
+	}
+	var ttls []string
+	var jt []interface{}
+	nonzero := false
+	for _, a := range rec.Seen {
+		ttls = append(ttls, lib.N(uint64(a.TTL)))
+		jt = append(jt, map[string]interface{}{"batch_op": a.Op, "ttl": a.TTL})
+		nonzero = nonzero || a.TTL != 0
+	}
+	opn := map[string]uint64{"create": 0, "update": 1, "delete": 2}[op]
+	o.coq = lib.App("KTtlWrite", lib.Str(prefix), lib.N(eventsTTLSeconds), lib.N(opn), lib.N(uint64(lease)), tab.B([]byte(key)), lib.List(ttls))
+	o.json = map[string]interface{}{"op": op, "key": key, "lease": lease, "ttl_args": jt}
+	o.outcomes = []string{fmt.Sprintf("ttl-write-%s-lease-%d-ttl-%v", op, lease, nonzero)}
+	return
+}
+
 // ---------- (c) engine-side TTL ----------
 
 type tplan struct {
@@ -493,7 +536,12 @@ func runEngineTTL(p tplan, scratch string) (o out) {
 			evs = append(evs, lib.App("TDump", lib.N(uint64(a)), lib.CsRecsCoq(d, tab)))
 			js = append(js, map[string]interface{}{"op": "dump", "at_ms": a, "records": len(d)})
 		default:
-			w := lib.CsWrite{Op: e.op, Key: []byte(e.key), Val: []byte(fmt.Sprintf("v%d", e.at))}
+			var lease int64
+			if i := strings.Index(e.op, "+lease"); i >= 0 { // "update+lease1": the request carries Lease 1
+				fmt.Sscanf(e.op[i+6:], "%d", &lease)
+				e.op = e.op[:i]
+			}
+			w := lib.CsWrite{Op: e.op, Key: []byte(e.key), Val: []byte(fmt.Sprintf("v%d", e.at)), Lease: lease}
 			if w.Op != "create" {
 				if kv, ok, _ := be.Get(w.Key, 0); ok {
 					w.Rev = kv.Rev
@@ -513,7 +561,7 @@ func runEngineTTL(p tplan, scratch string) (o out) {
 			} else {
 				evs = append(evs, lib.App(con, lib.N(uint64(a)), tab.B(w.Key), lib.Bytes(w.Val), lib.N(hdr)))
 			}
-			js = append(js, map[string]interface{}{"op": e.op, "key": e.key, "at_ms": a, "rev": hdr})
+			js = append(js, map[string]interface{}{"op": e.op, "key": e.key, "at_ms": a, "rev": hdr, "lease": lease})
 		}
 	}
 	e := "EMem"
@@ -559,7 +607,7 @@ func main() {
 	backend.VerifSetIntervals(time.Hour, time.Hour)
 	backend.VerifSetEventsTTL(eventsTTLSeconds)
 	rnd := lib.NewRand(args.Seed)
-	nScan, nEng := 44, 12
+	nScan, nEng := 44, 16
 	switch args.Tier {
 	case "thorough":
 		nScan, nEng = 600, 40
@@ -607,9 +655,16 @@ func main() {
 		k := k
 		jobs = append(jobs, func() out { return runTTLChoice(k, false, args.Scratch) })
 		jobs = append(jobs, func() out { return runTTLChoice(k, true, args.Scratch) })
+		for _, lease := range []int64{0, 1, 5} {
+			lease := lease
+			jobs = append(jobs, func() out { return runTTLWrite(k, "create", lease, args.Scratch) })
+			jobs = append(jobs, func() out { return runTTLWrite(k, "update", lease, args.Scratch) })
+		}
+		jobs = append(jobs, func() out { return runTTLWrite(k, "delete", 0, args.Scratch) })
 	}
 	// engine TTL: create, optional update / delete / re-create before the TTL, dumps well away from the expiry instants
 	e1, pa, p1, ex := "/registry/events/default/e1", "/registry/pods/a", "/registry/pods/events/p1", "/registry/eventsx/a"
+	ml := "/registry/masterleases/10.0.0.1"
 	memScripts := [][]tplanEv{
 		{{0, "create", e1}, {0, "create", pa}, {700, "dump", ""}, {2600, "dump", ""}},
 		// updated one second after creation: memkv's timer of the create removes the fresh index
@@ -620,6 +675,9 @@ func main() {
 		// re-creation go together (the tombstone, written without a TTL, stays), the key reads absent and can be created again
 		{{0, "create", e1}, {150, "delete", e1}, {300, "create", e1}, {600, "dump", ""}, {2900, "dump", ""}},
 		{{0, "create", e1}, {120, "update", e1}, {240, "delete", e1}, {360, "create", e1}, {600, "dump", ""}, {2900, "dump", ""}},
+		// a non-event key updated with a Lease (Kubernetes: <prefix>/masterleases/<ip>): nothing of it ever expires
+		{{0, "create", pa}, {0, "create", ml}, {300, "update+lease1", pa}, {300, "update+lease1", ml}, {700, "dump", ""}, {2900, "dump", ""}},
+		{{0, "create", p1}, {200, "update+lease1", p1}, {400, "update+lease5", p1}, {700, "dump", ""}, {3000, "dump", ""}},
 	}
 	badgerScripts := [][]tplanEv{
 		{{0, "create", e1}, {0, "create", pa}, {600, "dump", ""}, {2600, "dump", ""}},
@@ -628,6 +686,8 @@ func main() {
 		{{0, "create", e1}, {300, "delete", e1}, {600, "dump", ""}, {2600, "dump", ""}},
 		{{0, "create", e1}, {150, "delete", e1}, {300, "create", e1}, {600, "dump", ""}, {2900, "dump", ""}},
 		{{0, "create", e1}, {120, "update", e1}, {240, "delete", e1}, {360, "create", e1}, {600, "dump", ""}, {2900, "dump", ""}},
+		{{0, "create", pa}, {0, "create", ml}, {300, "update+lease1", pa}, {300, "update+lease1", ml}, {700, "dump", ""}, {2900, "dump", ""}},
+		{{0, "create", p1}, {200, "update+lease1", p1}, {400, "update+lease5", p1}, {700, "dump", ""}, {3000, "dump", ""}},
 	}
 	for i := 0; i < nEng; i++ {
 		e := []string{lib.EngMem, lib.EngBadger}[i%2]
@@ -667,7 +727,7 @@ func main() {
 	if skipped*3 > len(outs) {
 		w.Fail(lib.ImplFailure{CaseID: -1, What: fmt.Sprintf("generator degenerate: %d of %d cases had indeterminate timing", skipped, len(outs))})
 	}
-	if err := w.Finish("scanner cases (scripted: substring look-alikes; update/delete before expiry with a smaller later compaction revision; a client Update landing between the scan's snapshot and the compare-and-delete of the index; a burst of >= 70 marks inside one TTL window followed by a pause, a new Event, and compactions just after the burst's TTL) and random ones: writes over 9 keys (Event keys, look-alikes such as /registry/pods/events/p1, /registry/eventsx/a, /registry/events, non-event keys, a key outside the prefix), 3-5 scanner.Compact calls with real sleeps chosen so that every (mark, later call) pair is >= 100 ms away from the 300 ms TTL, timestamps recorded around every call, cases with a measured age within 30 ms of the TTL skipped as indeterminate (after 3 tries); TTL-choice cases: per pool key one Create of a fresh key and one Create over a tombstoned index, with the engine's ttl arguments of every batch operation recorded; engine-TTL cases: scripted create/update/delete/re-create (incl. create, delete, create and create, update, delete, create with no compaction in between, left alone past the TTL) under a 2 s TTL on memkv and Badger, followed by Get + Create on every key of the script, with dumps >= 250 ms away from every expiry instant; distinct = SHA-256 of the Coq case; non-trivial (scanner cases) = a compaction removed at least one record"); err != nil {
+	if err := w.Finish("scanner cases (scripted: substring look-alikes; update/delete before expiry with a smaller later compaction revision; a client Update landing between the scan's snapshot and the compare-and-delete of the index; a burst of >= 70 marks inside one TTL window followed by a pause, a new Event, and compactions just after the burst's TTL) and random ones: writes over 9 keys (Event keys, look-alikes such as /registry/pods/events/p1, /registry/eventsx/a, /registry/events, non-event keys, a key outside the prefix), 3-5 scanner.Compact calls with real sleeps chosen so that every (mark, later call) pair is >= 100 ms away from the 300 ms TTL, timestamps recorded around every call, cases with a measured age within 30 ms of the TTL skipped as indeterminate (after 3 tries); TTL-choice cases: per pool key one Create of a fresh key and one Create over a tombstoned index, with the engine's ttl arguments of every batch operation recorded, and per pool key Create / Update with Lease 0, 1, 5 and Delete with the ttl arguments of every batch operation; engine-TTL cases: scripted create/update/delete/re-create (incl. create, delete, create and create, update, delete, create with no compaction in between, left alone past the TTL; non-event keys updated with a Lease) under a 2 s TTL on memkv and Badger, followed by Get + Create on every key of the script, with dumps >= 250 ms away from every expiry instant; distinct = SHA-256 of the Coq case; non-trivial (scanner cases) = a compaction removed at least one record"); err != nil {
 		fmt.Fprintln(os.Stderr, err)
 		os.Exit(2)
 	}
